@@ -143,6 +143,7 @@ type mJob struct {
 	Prio       int64
 	NT         int64
 	Rest       int64
+	Term       bool // metadata.deletionTimestamp set: the job is Terminating, a finalizer is pending
 }
 type mQueue struct {
 	Name, State, Parent int64
@@ -168,17 +169,27 @@ func encPolicies(out []int64, ps []mPolicy) []int64 {
 	for _, p := range ps {
 		out = append(out, p.Action, p.Event)
 		out = encList(out, p.Events)
-		out = encOpt(out, p.Exit)
+		out = encOpt(out, w32p(p.Exit))
 		out = append(out, p.Timeout)
 	}
 	return out
 }
+// every int32 field leaves the generator as a number an int32 can hold (what the object built
+// from it will contain); the injectors below are written not to rely on this net
+func w32(x int64) int64 { return int64(int32(x)) }
+func w32p(p *int64) *int64 {
+	if p == nil {
+		return nil
+	}
+	return p64(w32(*p))
+}
+
 func encTask(out []int64, t mTask) []int64 {
-	out = append(out, t.Name, t.Replicas)
-	out = encOpt(out, t.MinAvail)
+	out = append(out, t.Name, w32(t.Replicas))
+	out = encOpt(out, w32p(t.MinAvail))
 	out = append(out, t.Tm, vh.B(t.HostNet), t.DNS)
 	out = encPolicies(out, t.Policies)
-	out = append(out, t.MaxRetry)
+	out = append(out, w32(t.MaxRetry))
 	if t.HasDeps {
 		out = append(out, 1)
 		out = encList(out, t.Deps)
@@ -187,7 +198,7 @@ func encTask(out []int64, t mTask) []int64 {
 		out = append(out, 0)
 	}
 	if t.Part != nil {
-		out = append(out, 1, t.Part.Total, t.Part.Size, t.Part.Min, t.Part.NT)
+		out = append(out, 1, w32(t.Part.Total), w32(t.Part.Size), w32(t.Part.Min), t.Part.NT)
 	} else {
 		out = append(out, 0)
 	}
@@ -208,7 +219,7 @@ func encJob(out []int64, j mJob, tagged bool) []int64 {
 		out = encTask(out, t)
 	}
 	out = tagTok(tagged, out, 3)
-	out = append(out, j.MinAvail)
+	out = append(out, w32(j.MinAvail))
 	out = tagTok(tagged, out, 4)
 	out = encPolicies(out, j.Policies)
 	out = tagTok(tagged, out, 5)
@@ -227,7 +238,7 @@ func encJob(out []int64, j mJob, tagged bool) []int64 {
 		out = append(out, 0)
 	}
 	out = tagTok(tagged, out, 7)
-	return append(out, j.Queue, j.Sched, j.MaxRetry, j.Prio, j.NT, j.Rest)
+	return append(out, j.Queue, j.Sched, w32(j.MaxRetry), j.Prio, j.NT, j.Rest, vh.B(j.Term))
 }
 func encQueues(out []int64, qs []mQueue) []int64 {
 	out = append(out, int64(len(qs)))
@@ -245,9 +256,28 @@ func encOracles(out []int64) []int64 {
 }
 
 type rd struct {
-	t []int64
-	i int
+	t   []int64
+	i   int
+	bad bool // an int32 field of the API types was given a number outside int32
 }
+
+// i32 reads an int32 field.  A number outside int32 cannot reach the webhook (JSON decoding of
+// the request fails): the case is undecodable input, for the model (Entry.dI32) and here alike.
+func (r *rd) i32() int64 {
+	v := r.z()
+	if v < -2147483648 || v > 2147483647 {
+		r.bad = true
+	}
+	return v
+}
+func (r *rd) optI32() *int64 {
+	if r.z() == 0 {
+		return nil
+	}
+	return p64(r.i32())
+}
+
+var badInput = []int64{-999999}
 
 func (r *rd) z() int64 { v := r.t[r.i]; r.i++; return v }
 func (r *rd) opt() *int64 {
@@ -270,27 +300,27 @@ func (r *rd) policies() []mPolicy {
 	for i := 0; i < n; i++ {
 		p := mPolicy{Action: r.z(), Event: r.z()}
 		p.Events = r.list()
-		p.Exit = r.opt()
+		p.Exit = r.optI32()
 		p.Timeout = r.z()
 		ps = append(ps, p)
 	}
 	return ps
 }
 func (r *rd) task() mTask {
-	t := mTask{Name: r.z(), Replicas: r.z()}
-	t.MinAvail = r.opt()
+	t := mTask{Name: r.z(), Replicas: r.i32()}
+	t.MinAvail = r.optI32()
 	t.Tm = r.z()
 	t.HostNet = r.z() != 0
 	t.DNS = r.z()
 	t.Policies = r.policies()
-	t.MaxRetry = r.z()
+	t.MaxRetry = r.i32()
 	if r.z() != 0 {
 		t.HasDeps = true
 		t.Deps = r.list()
 		t.Iter = r.z()
 	}
 	if r.z() != 0 {
-		t.Part = &mPart{r.z(), r.z(), r.z(), r.z()}
+		t.Part = &mPart{r.i32(), r.i32(), r.i32(), r.z()}
 	}
 	return t
 }
@@ -300,7 +330,7 @@ func (r *rd) job() mJob {
 	for i := 0; i < n; i++ {
 		j.Tasks = append(j.Tasks, r.task())
 	}
-	j.MinAvail = r.z()
+	j.MinAvail = r.i32()
 	j.Policies = r.policies()
 	n = int(r.z())
 	for i := 0; i < n; i++ {
@@ -315,7 +345,8 @@ func (r *rd) job() mJob {
 			j.Plugins = append(j.Plugins, mPlugin{r.z(), r.z(), r.z()})
 		}
 	}
-	j.Queue, j.Sched, j.MaxRetry, j.Prio, j.NT, j.Rest = r.z(), r.z(), r.z(), r.z(), r.z(), r.z()
+	j.Queue, j.Sched, j.MaxRetry, j.Prio, j.NT, j.Rest = r.z(), r.z(), r.i32(), r.z(), r.z(), r.z()
+	j.Term = r.z() != 0
 	return j
 }
 func (r *rd) queues() []mQueue {
@@ -508,6 +539,12 @@ func buildJob(m mJob) *batch.Job {
 	j.Kind = "Job"
 	j.Name = jobNames.str(m.Name)
 	j.Namespace = "default"
+	if m.Term {
+		// deleted, a finalizer keeps the object: what the API server sends for later writes
+		ts := metav1.NewTime(time.Unix(1700000000, 0))
+		j.DeletionTimestamp = &ts
+		j.Finalizers = []string{"verif.example/hold"}
+	}
 	s := &j.Spec
 	for _, t := range m.Tasks {
 		ts := batch.TaskSpec{Name: taskNames.str(t.Name), Replicas: int32(t.Replicas), MaxRetry: int32(t.MaxRetry)}
@@ -590,7 +627,7 @@ func jobJSON(m mJob) []byte {
 }
 
 func absJob(j *batch.Job) mJob {
-	m := mJob{Name: jobNames.id(j.Name)}
+	m := mJob{Name: jobNames.id(j.Name), Term: j.DeletionTimestamp != nil}
 	s := &j.Spec
 	for _, ts := range s.Tasks {
 		t := mTask{Name: taskNames.id(ts.Name), Replicas: int64(ts.Replicas), MaxRetry: int64(ts.MaxRetry)}
@@ -820,6 +857,7 @@ type createIn struct {
 	d     int64
 	j     mJob
 	useIn bool
+	bad   bool
 }
 
 func decCreate(in []int64, withD bool) createIn {
@@ -831,12 +869,14 @@ func decCreate(in []int64, withD bool) createIn {
 	}
 	c.j = r.job()
 	c.useIn = r.z() != 0
+	c.bad = r.bad
 	return c
 }
 
 type updIn struct {
-	j  mJob
-	us []mJob
+	bad bool
+	j   mJob
+	us  []mJob
 }
 
 func decUpd(in []int64) updIn {
@@ -847,6 +887,7 @@ func decUpd(in []int64) updIn {
 	for i := 0; i < n; i++ {
 		u.us = append(u.us, r.job())
 	}
+	u.bad = r.bad
 	return u
 }
 
@@ -874,16 +915,25 @@ func run(sel int, in []int64) []int64 {
 	switch sel {
 	case 1:
 		c := decCreate(in, false)
+		if c.bad {
+			return badInput
+		}
 		setQueues(c.qs, c.useIn)
 		return []int64{vh.B(realValidateCreate(jobJSON(c.j)))}
 	case 2:
 		r := &rd{t: in}
 		d := r.z()
 		j := r.job()
+		if r.bad {
+			return badInput
+		}
 		m1 := absJob(decodeJob(realMutate(jobJSON(j), d)))
 		return encJob(nil, m1, true)
 	case 3:
 		u := decUpd(in)
+		if u.bad {
+			return badInput
+		}
 		setQueues(baseQueues, false)
 		cur := jobJSON(u.j)
 		out := []int64{int64(len(u.us))}
@@ -898,6 +948,9 @@ func run(sel int, in []int64) []int64 {
 		return out
 	case 4:
 		c := decCreate(in, true)
+		if c.bad {
+			return badInput
+		}
 		setQueues(c.qs, c.useIn)
 		return []int64{vh.B(realValidateCreate(realMutate(jobJSON(c.j), c.d)))}
 	case 5:
@@ -925,6 +978,9 @@ func prefill(j mJob) mJob {
 }
 
 func laws(sel int, in, got []int64, law func(lsel int, lin []int64, sig string)) {
+	if len(got) == 1 && got[0] == badInput[0] {
+		return // undecodable input (a number outside int32): nothing ran
+	}
 	switch sel {
 	case 1:
 		c := decCreate(in, false)
@@ -1265,7 +1321,8 @@ var defectNames = []string{"no-tasks", "dup-task-name", "task-minavail-gt-replic
 	"partition-nt-conflict", "job-nt-conflict", "negative-replicas", "replica-overflow", "dotted-task-name", "exitcode-bad-action",
 	"explicit-default-name", "partition-overflow", "partition-negative-min", "mpi-unparsable-args", "mpi-unparsable-args-default-master",
 	"same-trigger-job-and-task", "same-trigger-two-tasks",
-	"queue-only-terminating-children", "queue-target-terminating", "queue-leaf-with-nephews"}
+	"queue-only-terminating-children", "queue-target-terminating", "queue-leaf-with-nephews",
+	"int32-boundary", "int32-partition-product"}
 
 func perm(r *vh.Rng, n int) []int {
 	out := make([]int, n)
@@ -1503,11 +1560,17 @@ func inject(r *vh.Rng, j *mJob, kind string) bool {
 		if t.Part != nil {
 			return false
 		}
+		if t.Replicas > 2147483645 {
+			t.Replicas = 2147483645 // keep minAvailable = replicas+1..2 inside int32
+		}
 		t.MinAvail = p64(t.Replicas + int64(r.Range(1, 2)))
 	case "job-minavail-gt-total":
 		var tot int64
 		for _, x := range j.Tasks {
 			tot += x.Replicas
+		}
+		if tot+3 > 2147483647 || tot < -2147483648 {
+			return false // "above the total" is not expressible in int32 for this job
 		}
 		j.MinAvail = tot + int64(r.Range(1, 3))
 	case "bad-event", "bad-action", "event-and-exitcode", "empty-policy", "dup-event", "any-with-others", "exitcode-zero", "dup-exitcode":
@@ -1670,6 +1733,70 @@ func inject(r *vh.Rng, j *mJob, kind string) bool {
 			j.Tasks[i].Part = nil
 		}
 		j.MinAvail = int64(vh.Pick(r, []int{0, 1, 2147483647, 5}))
+	case "int32-boundary":
+		// replica counts and minAvailable values at the edges of int32 (all representable): the
+		// running int32 total wraps, per-task comparisons sit at max32; mixed verdicts
+		const max32 = int64(2147483647)
+		var tot int64
+		for i := range j.Tasks {
+			x := &j.Tasks[i]
+			x.Part = nil
+			x.Replicas = vh.Pick(r, []int64{1 << 30, max32, max32 - 1, 1<<30 - 1, 0, 1})
+			switch r.Intn(6) {
+			case 0:
+				x.MinAvail = nil
+			case 1:
+				x.MinAvail = p64(x.Replicas)
+			case 2:
+				x.MinAvail = p64(x.Replicas - 1)
+			case 3:
+				if x.Replicas < max32 {
+					x.MinAvail = p64(x.Replicas + 1)
+				} else {
+					x.MinAvail = p64(max32)
+				}
+			case 4:
+				x.MinAvail = p64(max32)
+			default:
+				x.MinAvail = p64(0)
+			}
+			tot += x.Replicas
+		}
+		wt := w32(tot)
+		cands := []int64{0, 1, max32, wt}
+		if wt < max32 {
+			cands = append(cands, wt+1)
+		}
+		if wt > -2147483648 {
+			cands = append(cands, wt-1)
+		}
+		if tot <= max32 {
+			cands = append(cands, tot)
+		}
+		j.MinAvail = vh.Pick(r, cands)
+	case "int32-partition-product":
+		// totalPartitions*partitionSize and minPartitions*partitionSize around 2^31 / 2^32
+		pr := vh.Pick(r, [][2]int64{{32768, 65536}, {46341, 46341}, {46340, 46340}, {65536, 65536}, {65536, 32767}, {2147483647, 2}, {2147483647, 1}})
+		prod := pr[0] * pr[1]
+		t.Part = &mPart{pr[0], pr[1], vh.Pick(r, []int64{0, 1, pr[0], 46341, 32768}), 0}
+		reps := []int64{w32(prod), 0}
+		if prod <= 2147483647 {
+			reps = append(reps, prod)
+		}
+		t.Replicas = vh.Pick(r, reps)
+		switch r.Intn(3) {
+		case 0:
+			t.MinAvail = nil
+		case 1:
+			t.MinAvail = p64(w32(t.Part.Min * t.Part.Size))
+		default:
+			t.MinAvail = p64(t.Replicas)
+		}
+		var tot int64
+		for _, x := range j.Tasks {
+			tot += x.Replicas
+		}
+		j.MinAvail = vh.Pick(r, []int64{0, 0, w32(tot)})
 	case "dotted-task-name":
 		for _, x := range j.Tasks {
 			if x.Name == 9 {
@@ -2137,6 +2264,7 @@ func gen(rng *vh.Rng, n int, emit func(id string, sel int, in []int64, kind stri
 		for k := rr.Intn(3); k > 0 && len(j.Tasks) > 0; k-- {
 			inject(rr, &j, vh.Pick(rr, defectNames))
 		}
+		j.Term = rr.Chance(1, 10) // metadata only: CREATE validation does not read it
 		emit(fmt.Sprintf("create-rand-%d", i), 1, createTokens(qs, j, rr.Chance(1, 2)), "create/random", len(j.Tasks) > 0, descJob(j))
 	}
 	// 3. mutate alone (any object, also invalid ones)
@@ -2149,6 +2277,7 @@ func gen(rng *vh.Rng, n int, emit func(id string, sel int, in []int64, kind stri
 		if rm.Chance(1, 8) {
 			j.HasPlugins, j.Plugins = true, nil
 		}
+		j.Term = rm.Chance(1, 10) // the patch must leave metadata alone
 		l := []int64{int64(rm.Range(1, 3))}
 		emit(fmt.Sprintf("mutate-%d", i), 2, encJob(l, j, false), "mutate/object", len(j.Tasks) > 0, descJob(j))
 	}
@@ -2198,16 +2327,31 @@ func gen(rng *vh.Rng, n int, emit func(id string, sel int, in []int64, kind stri
 				hkind = "update/history-invalid-stored"
 			}
 		}
+		// deletionTimestamp: the stored object may be Terminating from the start; from a random
+		// step on every request carries it (the job was deleted, a finalizer is pending); single
+		// requests flip it independently, so old/new see all four combinations
+		j.Term = ru.Chance(1, 6)
+		termFrom := 99
+		if ru.Chance(1, 2) {
+			termFrom = ru.Intn(4)
+		}
 		cur := j
 		var us []mJob
 		kinds := []string{}
 		steps := ru.Range(2, 7)
 		for s := 0; s < steps; s++ {
 			u, kind := genUpdate(ru, cur)
+			u.Term = cur.Term || s >= termFrom
+			if ru.Chance(1, 8) {
+				u.Term = !u.Term
+			}
+			if u.Term {
+				kind += "+terminating"
+			}
 			us = append(us, u)
 			kinds = append(kinds, kind)
 			// follow the likely-admitted ones so that histories make progress
-			switch kind {
+			switch strings.TrimSuffix(kind, "+terminating") {
 			case "replicas", "combo", "job-minavail", "prio", "identity", "claimname-fill", "plugins-empty":
 				cur = u
 			}
